@@ -123,7 +123,12 @@ func Intersect(ctx *expr.Context, input system.Collection, args ...expr.Expressi
 	for _, i := range input {
 		for _, c := range argValues {
 			if checkEquality(i, c) {
-				v, _ := system.From(c)
+				v, err := system.From(c)
+				if err != nil {
+					// complex elements have no System representation: keep the element itself
+					result = append(result, c)
+					continue
+				}
 				result = append(result, v)
 			}
 		}
@@ -203,11 +208,9 @@ func IsDistinct(ctx *expr.Context, input system.Collection, args ...expr.Express
 }
 
 func removeDuplicates(collection system.Collection) system.Collection {
-	seen := make(map[any]bool)
 	var result system.Collection
 	for _, val := range collection {
-		if _, ok := seen[val]; !ok {
-			seen[val] = true
+		if !result.Contains(val) {
 			result = append(result, val)
 		}
 	}
